@@ -1,3 +1,113 @@
+import Invoke.Model.TaskSig
 import Driver.Util
-/-! stub: replaced by the owner of this driver -/
-def main : IO Unit := Drv.mainLoop (fun _ => "bad-op")
+/-! Line-protocol driver for C09 (`drv_sig`).
+
+    input : `sig <params>|<positional>|<optional>|<iterable>|<incrementable>|<auto>|<help>|<ignore>[|<argv>]`
+      params        `;`-separated `name=default`, default one of `E` (none given) `N` `S<codes>` `I<int>` `B0|B1`
+                    `L<codes>+<codes>…` (`L` = empty list); names are written verbatim (identifier characters)
+      positional    `-` (not given) or `,`-separated names (`` = empty list)
+      help          `,`-separated keys; auto / ignore `0|1`
+      argv          optional, `,`-separated tokens as decimal char codes (`.`-separated): parsed by the shared parser model
+    output: `<args> # <context>[ # <kwargs after parse>]`, or `EXC <class>` in place of a part -/
+open Inv Drv
+
+def T (s : String) : Tok := s.toList
+def S (t : Tok) : String := String.ofList t
+def splitNE (s sep : String) : List String := if s == "" then [] else s.splitOn sep
+def b01 (b : Bool) : String := if b then "1" else "0"
+
+def parseDef (s : String) : PyDefault :=
+  if s == "E" then .empty
+  else if s == "N" then .none
+  else if s.startsWith "S" then .str (decChars (s.drop 1).toString)
+  else if s.startsWith "I" then .int ((s.drop 1).toString.toInt?.getD 0)
+  else if s == "B1" then .bool true
+  else if s == "B0" then .bool false
+  else if s.startsWith "L" then .list ((splitNE (s.drop 1).toString "+").map decChars)
+  else .empty
+
+def parseParam (p : String) : Param :=
+  match p.splitOn "=" with
+  | [n, d] => { name := T n, default := parseDef d }
+  | _ => { name := T "BAD", default := .empty }
+
+def showPV : PVal → String
+  | .none => "N"
+  | .s v => "S" ++ encChars v
+  | .i v => "I" ++ toString v
+  | .b v => if v then "B1" else "B0"
+  | .l xs => "L" ++ "+".intercalate (xs.map encChars)
+
+def showKind : Kind → String
+  | .str => "str" | .int => "int" | .bool => "bool" | .list => "list"
+
+def showSpec (a : ArgSpec) (help : Bool) : String :=
+  "/".intercalate [",".intercalate (a.names.map S), showKind a.kind, showPV a.default, b01 a.positional,
+    b01 a.optional, b01 a.incrementable, (match a.attrName with | some n => S n | none => ""), b01 help]
+
+def errClass : Err → String
+  | .other cls _ => "EXC " ++ cls
+  | .parse _ _ => "EXC ParseError"
+  | .fuel => "EXC fuel"
+
+def nameAt (c : Ctx) (i : Nat) : String :=
+  match c.args[i]? with
+  | some a => S a.spec.pyName
+  | none => "?"
+
+def showKw (c : Ctx) : String :=
+  ",".intercalate (c.asKwargs.map (fun kv => S kv.1 ++ "=" ++ showPV kv.2))
+
+def showCtx (c : Ctx) : String :=
+  "flags=" ++ ",".intercalate (c.flags.map (fun f => S f.1 ++ ">" ++ nameAt c f.2)) ++
+  " inv=" ++ ",".intercalate (c.inverse.map (fun f => S f.1 ++ ">" ++ S f.2)) ++
+  " pos=" ++ ",".intercalate (c.positionalNames.map S) ++
+  " kw=" ++ showKw c
+
+/-- help flag of the argument called `n` (parameters are looked up by python name) -/
+def helpOf (o : TaskOpts) (ps : List Param) (n : Tok) : Bool :=
+  match (ps.zip (helpFlags o.help ps)).find? (fun ph => ph.1.name = n) with
+  | some ph => ph.2
+  | none => false
+
+def parseOpts (pos opt iter inc auto help ign : String) : TaskOpts :=
+  { positional := if pos == "-" then none else some ((splitNE pos ",").map T)
+    optional := (splitNE opt ",").map T
+    iterable := (splitNE iter ",").map T
+    incrementable := (splitNE inc ",").map T
+    autoShort := auto == "1"
+    help := (splitNE help ",").map T
+    ignoreUnknownHelp := ign == "1" }
+
+def runSig (ps : List Param) (o : TaskOpts) (argv : Option (List Tok)) : String :=
+  match getArguments o ps with
+  | .error e => errClass e
+  | .ok args =>
+    let sa := ";".intercalate (args.map (fun a => showSpec a (helpOf o ps a.pyName)))
+    match Ctx.ofSpecsChecked (some (T "t")) [] args with
+    | .error e => sa ++ " # " ++ errClass e
+    | .ok c =>
+      let base := sa ++ " # " ++ showCtx c
+      match argv with
+      | none => base
+      | some av =>
+        match parseArgv none [c] false (T "t" :: av) with
+        | .error e => base ++ " # " ++ errClass e
+        | .ok r =>
+          match r.contexts with
+          | [c'] => base ++ " # " ++ showKw c'
+          | _ => base ++ " # ?"
+
+def step (line : String) : String :=
+  match line.splitOn " " with
+  | ["sig", rest] =>
+    match rest.splitOn "|" with
+    | [params, pos, opt, iter, inc, auto, help, ign] =>
+      runSig ((splitNE params ";").map parseParam) (parseOpts pos opt iter inc auto help ign) none
+    | [params, pos, opt, iter, inc, auto, help, ign, argv] =>
+      runSig ((splitNE params ";").map parseParam) (parseOpts pos opt iter inc auto help ign)
+        (some ((splitNE argv ",").map decChars))
+    | _ => "bad-op"
+  | _ => "bad-op"
+
+def main : IO Unit := mainLoop step
